@@ -133,3 +133,10 @@ Theorem C10_mangle_distinct : forall hash : str -> str,
   forall n p1 p2, p1 <> p2 -> mangled hash n p1 <> mangled hash n p2.
 Proof. exact mangled_distinct. Qed.
 Print Assumptions C10_mangle_distinct.
+
+(* the symbol of a generic instantiation determines function, parameter types (name and declaring module) and module *)
+Theorem C10_instantiation_symbol_injective : forall hash : str -> str,
+  (forall a b, hash a = hash b -> a = b) ->
+  forall fn1 fn2 t1 t2 p1 p2, inst_symbol hash fn1 t1 p1 = inst_symbol hash fn2 t2 p2 -> fn1 = fn2 /\ t1 = t2 /\ p1 = p2.
+Proof. exact inst_symbol_injective. Qed.
+Print Assumptions C10_instantiation_symbol_injective.
